@@ -45,6 +45,23 @@ func genC16(enum bool) func(r *prng) *plan {
 		p.Cfg["jitter_ms"] = int64(r.intn(100))
 		np := 1 + r.intn(6)
 		p.Cfg["np"] = int64(np)
+		if r.chance(15) {
+			// story: a transfer that completed leaves its goroutine waiting (it gives its slot back when its read
+			// is done and once more when it ends, seconds later); meanwhile another offer takes the last slot and
+			// stalls; after the first goroutine has ended a further offer arrives: the stalled transfer must still
+			// hold its slot
+			p.Cfg["limit"] = int64(1 + r.intn(2))
+			p.Cfg["faults"] = 0
+			for k := int64(0); k < p.Cfg["limit"]; k++ {
+				p.Ops = append(p.Ops, opSpec{K: "inoffer", N: []int64{int64(r.intn(np)), int64(1 + r.intn(3)), int64(ibComplete), int64(r.u64() >> 1), int64(r.intn(3000))}})
+			}
+			p.Ops = append(p.Ops, opSpec{K: "wait", N: []int64{int64(1000 + r.intn(8000))}})
+			for k := int64(0); k < p.Cfg["limit"]; k++ {
+				p.Ops = append(p.Ops, opSpec{K: "inoffer", N: []int64{int64(r.intn(np)), int64(1 + r.intn(3)), int64(ibStall), int64(r.u64() >> 1), int64(r.intn(3000))}})
+			}
+			p.Ops = append(p.Ops, opSpec{K: "wait", N: []int64{int64(16000 + r.intn(14000))}})
+			p.Ops = append(p.Ops, opSpec{K: "inoffer", N: []int64{int64(r.intn(np)), int64(1 + r.intn(3)), int64(r.intn(ibCount)), int64(r.u64() >> 1), int64(r.intn(3000))}})
+		}
 		n := 3 + r.intn(10)
 		for i := 0; i < n; i++ {
 			switch r.intn(10) {
